@@ -191,3 +191,19 @@ func VerifC19_fixed_ints() {
 		vReach("u64")
 	}
 }
+
+// the one-byte-length-prefixed helpers for every payload length they are documented to carry
+// (0..255), with the boundary at 127/128 inside the quick tier's range
+func VerifC19_u8_roundtrip_all_lengths() {
+	vUnwind(4)
+	payload := vBytes("payload", 0, 255)
+	prefix := vBuf("prefix", 0, 2, 4)
+	plen := len(prefix)
+	enc := AppendUint8Bytes(prefix, payload)
+	vAssert(len(enc) == plen+1+len(payload), "u8-bytes-length")
+	vAssert(int(enc[plen]) == len(payload), "u8-length-byte")
+	got, used := ConsumeUint8Bytes(enc[plen:])
+	vAssert(used == 1+len(payload), "u8-bytes-consumed")
+	vAssert(vBytesEq(got, payload), "u8-bytes-roundtrip")
+	vReach("u8-bytes")
+}
